@@ -35,9 +35,21 @@ def _feature(sf):
     return Feature(name, [], is_abstract=abstract, **kw)
 
 
+def afm_attr(ranges, elements, default, null):
+    """Shadow value of an attribute with a domain (AFM style)."""
+    return sh.freeze({'__afm__': True, 'ranges': [list(r) for r in ranges], 'elements': list(elements),
+                      'default': default, 'null': null})
+
+
 def _attrs(f, sf):
+    from flamapy.metamodels.fm_metamodel.models import Domain, Range
     for (aname, aval) in sf[5]:
-        f.add_attribute(Attribute(aname, None, sh.thaw(aval), None))
+        val = sh.thaw(aval)
+        if isinstance(val, dict) and val.get('__afm__'):
+            dom = Domain([Range(lo, hi) for lo, hi in val['ranges']] or None, list(val['elements']) or None)
+            f.add_attribute(Attribute(aname, dom, val['default'], val['null']))
+        else:
+            f.add_attribute(Attribute(aname, None, val, None))
 
 
 def build(model, route='A'):
@@ -104,10 +116,26 @@ def obs_feature(f, _seen=None):
     ftype = f.feature_type.value if isinstance(f.feature_type, FeatureType) else ('obj', str(f.feature_type))
     fc = f.feature_cardinality
     fcard = (_strict_int(getattr(fc, 'min', None)), _strict_int(getattr(fc, 'max', None)))
-    attrs = tuple((a.name, sh.freeze(a.default_value)) for a in f.get_attributes())
+    attrs = tuple((a.name, _obs_attr_value(a)) for a in f.get_attributes())
     abstract = f.is_abstract if isinstance(f.is_abstract, bool) else sh.freeze(f.is_abstract)
     name = f.name if isinstance(f.name, str) else sh.freeze(f.name)
     return (name, tuple(rels), abstract, ftype, fcard, attrs)
+
+
+def _obs_attr_value(a):
+    if a.domain is None:
+        return sh.freeze(a.default_value)
+    dom = a.domain
+    return sh.freeze({'__afm__': True,
+                      'ranges': [[_plain_or_obj(r.min_value), _plain_or_obj(r.max_value)] for r in dom.get_range_list()],
+                      'elements': [_plain_or_obj(e) for e in dom.get_element_list()],
+                      'default': _plain_or_obj(a.default_value), 'null': _plain_or_obj(a.null_value)})
+
+
+def _plain_or_obj(v):
+    if v is None or isinstance(v, (bool, int, float, str)):
+        return v
+    return 'OBJ<%s:%s>' % (type(v).__name__, v)
 
 
 def _strict_int(v):
